@@ -377,20 +377,34 @@ impl Term {
     /// assert_eq!(term2.is_supercombinator(), false);
     /// ```
     pub fn is_supercombinator(&self) -> bool {
-        let mut stack = vec![(0usize, self)];
+        // strip the leading abstractions: self = λ^n E, where E is not an abstraction
+        let mut depth = 0usize;
+        let mut body = self;
+        while let Abs(ref t) = *body {
+            depth += 1;
+            body = t;
+        }
 
-        while let Some((depth, term)) = stack.pop() {
+        // E may only refer to the leading abstractions and every abstraction in it must be a
+        // supercombinator itself
+        let mut stack = vec![body];
+
+        while let Some(term) = stack.pop() {
             match term {
                 Var(i) => {
                     if *i > depth {
                         return false;
                     }
                 }
-                Abs(ref t) => stack.push((depth + 1, t)),
+                Abs(_) => {
+                    if !term.is_supercombinator() {
+                        return false;
+                    }
+                }
                 App(boxed) => {
                     let (ref f, ref a) = **boxed;
-                    stack.push((depth, f));
-                    stack.push((depth, a))
+                    stack.push(f);
+                    stack.push(a)
                 }
             }
         }
